@@ -272,6 +272,25 @@ def bounded_collective(tier, seed):
                 a, b = rng.choice(4, size=2, replace=False)
                 rows.append([int(rng.integers(0, 4)), quad[int(a)], quad[int(b)], s, s + int(rng.choice([1, 2, 5]))])
             inp = {'rows': rows, 'n_sites': n, 'max_steps': int(rng.choice([5, 20])), 'geometry': 'line', 'max_dist': 2.5}
+        if c % 5 == 4:
+            # strongly skewed (60 degree) cell: two clusters of sites, {0, 1} and {2, 3, 4}, whose true minimum-image separation (4.2-4.6 A) is
+            # much smaller than the component-wise wrapped one (6.2-7.0 A); jumps inside one cluster are collective with jumps inside the other
+            from pymatgen.core import Lattice
+            lat_ = Lattice.from_parameters(9.0, 9.0, 9.0, 60, 60, 60)
+            n = 5
+            pos_ = [[0.1, 0.1, 0.1], [0.2, 0.12, 0.08], [0.55, 0.55, 0.1], [0.1, 0.55, 0.55], [0.55, 0.1, 0.55]]
+            rows = []
+            for _ in range(int(rng.integers(3, 9))):
+                s = int(rng.integers(0, 10))
+                if rng.random() < 0.5:
+                    a, b = rng.permutation([0, 1])
+                    atom = int(rng.integers(0, 2))
+                else:
+                    a, b = rng.choice([2, 3, 4], size=2, replace=False)
+                    atom = int(rng.integers(2, 4))
+                rows.append([atom, int(a), int(b), s, s + int(rng.choice([1, 2, 4]))])
+            inp = {'rows': rows, 'n_sites': n, 'max_steps': int(rng.choice([5, 20])), 'geometry': 'custom', 'lattice': lat_.matrix.tolist(), 'positions': pos_,
+                   'max_dist': float(rng.choice([3.0, 5.2, 5.6]))}
         r = st.guard(replay_collective, inp)
         if r is None:
             continue
